@@ -118,3 +118,48 @@ Definition parse_row_ok (r : Z * list bool * Z) : bool :=
   end.
 Definition parse_mismatches (rows : list (Z * list bool * Z)) : list Z :=
   index_false 0 (map parse_row_ok rows).
+
+(* ------------------------------------------------------------------ *)
+(* End-to-end cases: the production sendTransaction wired into the production
+   Broadcaster (as NewChainService does), one transaction, scripted peers.
+   The monitor composes the two halves at the property level: Broadcast
+   returns nil exactly when the verdict of the peers' replies is "accepted"
+   (no error, or already in the mempool); a pending transaction is
+   re-announced on every block until a rebroadcast's verdict is "confirmed",
+   and never announced otherwise. *)
+Inductive estep :=
+  | XBroadcast (ms : list pmsg) (r : ret)      (* Broadcast(tx); the peers' replies; its return *)
+  | XBlock (announced : bool) (ms : list pmsg). (* a block; was the tx announced again; replies *)
+
+Definition outcome_of (v : verdict) : outcome :=
+  match v with VNone => OAccept | VErr c => ORej c | VBadMapping => OOther end.
+
+(* one per map iteration order *)
+Definition allowed_outcomes (ms : list pmsg) (tnum tden : Z) : list outcome :=
+  map (fun c => outcome_of (send_transaction (c :: all_codes) ms tnum tden)) all_codes.
+
+Definition ret_of (o : outcome) : ret := if accepted o then RNil else RErr o.
+
+Fixpoint e_bad (pend : option bool) (i tnum tden : Z) (l : list estep) : option Z :=
+  match l with
+  | [] => None
+  | XBroadcast ms r :: rest =>
+    if existsb (fun o => ret_eqb r (ret_of o)) (allowed_outcomes ms tnum tden)
+    then e_bad (match r with RNil => Some true | _ => pend end) (i + 1) tnum tden rest
+    else Some i
+  | XBlock ann ms :: rest =>
+    if match pend with Some p => Bool.eqb ann p | None => true end then
+      let outs := allowed_outcomes ms tnum tden in
+      let pend' := if ann then
+                     (if forallb is_confirmed outs then Some false
+                      else if existsb is_confirmed outs then None else Some true)
+                   else match pend with Some p => Some p | None => Some false end in
+      e_bad pend' (i + 1) tnum tden rest
+    else Some i
+  end.
+
+Definition ecase := (Z * Z * list estep)%type.
+Definition everdict (c : Z * ecase) : list (Z * Z * Z * Z) :=
+  let '(id, (tnum, tden, l)) := c in
+  match e_bad (Some false) 0 tnum tden l with Some i => [(id, 2, i, 0)] | None => [] end.
+Definition run_ecases (cs : list (Z * ecase)) : list (Z * Z * Z * Z) := flat_map everdict cs.
